@@ -508,7 +508,7 @@ def tags(inp, out):
 
 
 def generate(tier, rng):
-    n = 300 if tier != 'thorough' else 3000
+    n = 300 if tier != 'thorough' else 2400
     for i in range(n):
         yield gen_input(rng, exact=(i % 2 == 0), allow_maxpool=ALLOW_MAXPOOL)
 
